@@ -187,6 +187,9 @@ func exclusiveC09(c *Ctx) {
 				srcs := P.Sources(base)
 				okb := len(srcs) > 0
 				for _, s := range srcs {
+					if isNilConst(s) {
+						continue // a nil item has no mutex to inherit (reading it would panic)
+					}
 					if ex, isEx := s.(*ssa.Extract); isEx {
 						s = ex.Tuple
 					}
@@ -253,6 +256,56 @@ func exclusiveC10(c *Ctx) {
 			}
 		}
 	}
+	// 0a. the wait is a single bounded sleep measured from a start time that is fixed by the first caller: the sleep is
+	// not repeated, and item.ts is written only while it is still the zero time (a start time refreshed by every
+	// attaching call, re-read by a sleeping runner, postpones the execution for as long as calls keep arriving)
+	{
+		r := a.runner
+		for _, sl := range P.CallsTo(r.fn, "time.Sleep") {
+			r.add("PATH", "the runner waits at most once before executing", !P.InCycle(sl), pickS(!P.InCycle(sl), "time.Sleep is not in a loop", "the runner's wait is repeated in a loop: calls that keep attaching can postpone the execution indefinitely"), sl)
+		}
+		for _, st := range an.FieldStores(q.fn, "exclusiveItem.ts") {
+			if _, isAlloc := st.(*ssa.Store).Addr.(*ssa.FieldAddr).X.(*ssa.Alloc); isAlloc {
+				continue
+			}
+			zifs, znegs := P.IfsOn(q.fn, func(cond ssa.Value) bool {
+				b, ok := cond.(*ssa.BinOp)
+				if !ok || (b.Op != token.EQL && b.Op != token.NEQ) {
+					return false
+				}
+				zero := func(v ssa.Value) bool { k, isK := v.(*ssa.Const); return isK && k.Value == nil }
+				return either(b, loadOfField("exclusiveItem.ts"), zero)
+			})
+			okz := false
+			for i, zi := range zifs {
+				zs := 0
+				if znegs[i] {
+					zs = 1
+				}
+				if stripNotV(zi.Cond).(*ssa.BinOp).Op == token.NEQ {
+					zs = 1 - zs
+				}
+				if q.onlyViaEdge(st, zi, zs) {
+					okz = true
+				}
+			}
+			q.add("PATH", "the batch's start time is set once, by its first caller", okz, pickS(okz, "item.ts is stored only where it was still the zero time", "item.ts is overwritten by later callers: the remaining wait is measured from the last call instead of the first"), st)
+		}
+	}
+	// 0b. a rejected call (nil receiver or work) leaves nothing behind: no panic is reachable once the key's entry exists
+	{
+		var ups []ssa.Instruction
+		for _, in := range an.AllInstrs(q.fn, func(in ssa.Instruction) bool {
+			mu, ok := in.(*ssa.MapUpdate)
+			return ok && an.IsLoadOfField(mu.Map, "Exclusive.work")
+		}) {
+			ups = append(ups, in)
+		}
+		for _, u := range ups {
+			okp := !P.PathExists(q.fn, u, an.IsPanic, nil, nil)
+			q.add("PATH", "a rejected call leaves no per-key state behind", okp, pickS(okp, "no panic is reachable after the key's entry was created", "call can panic after it created the entry for the key: an idle item stays in the map for ever"), u)
+		}
+	}
 	// 1. attach only to the item currently in the map
 	eqIfs, negs := P.IfsOn(q.fn, func(cond ssa.Value) bool {
 		b, ok := cond.(*ssa.BinOp)
@@ -270,7 +323,8 @@ func exclusiveC10(c *Ctx) {
 			}
 			return false
 		}
-		return (isLk(b.X) && !isLk(b.Y)) || (isLk(b.Y) && !isLk(b.X))
+		// (the item itself may be the result of the earlier lookup, not a variable it was stored into)
+		return (isLk(b.X) || isLk(b.Y)) && b.X != b.Y
 	})
 	if len(eqIfs) != 1 {
 		q.undecided("PATH", "validity test e.work[key] == item", "the re-validation of the item against the map was not found as a single equality test")
@@ -417,6 +471,13 @@ func exclusiveC10(c *Ctx) {
 			st := an.FieldStores(b.fn, f)
 			okst := len(st) == 1 && !P.PathExists(b.fn, nil, an.IsReturn, an.In(st), nil)
 			b.add("PATH", "resolving records "+f+" for coalesced waiters", okst, "stored on every path of the once body", st...)
+		}
+		// a resolved item is complete whatever the outcome was: an item left running=false, complete=false would be
+		// picked up by the next goroutine of the batch as if it were new - a second runner on a used item, which
+		// replaces the successor the first runner installed (two executions for the key at once)
+		for _, s := range an.FieldStores(b.fn, "exclusiveItem.complete") {
+			bv, isB := constBool(s.(*ssa.Store).Val)
+			b.add("PROV", "resolving always completes the item", isB && bv, pickS(isB && bv, "item.complete = true", "whether the item counts as completed depends on the outcome: the remaining goroutines of the batch would run the work again on the used item"), s)
 		}
 		for _, s := range an.FieldStores(b.fn, "exclusiveItem.result") {
 			b.add("PROV", "waiters get the resolved result", s.(*ssa.Store).Val == ssa.Value(rs.fn.Params[0]) || srcIs(P, s.(*ssa.Store).Val, rs.fn.Params[0]), "item.result = result", s)
@@ -814,6 +875,26 @@ func exclusiveWiring(c *Ctx) {
 			passes := false
 			if ld, isL := isLoad(callArg(calls[0], 1)); isL && ld.X == ssa.Value(cfg) {
 				passes = true
+			}
+			if !passes {
+				// call() taking the configuration field by field: every argument is a distinct field of that config
+				cc := an.CallCommonOf(calls[0])
+				seen := map[int]bool{}
+				all := len(cc.Args) > 1
+				for _, a := range cc.Args[1:] {
+					ld, isL := isLoad(a)
+					if !isL {
+						all = false
+						break
+					}
+					fa, isFA := ld.X.(*ssa.FieldAddr)
+					if !isFA || fa.X != ssa.Value(cfg) || seen[fa.Field] {
+						all = false
+						break
+					}
+					seen[fa.Field] = true
+				}
+				passes = all
 			}
 			q.add("PROV", "every option is applied to the config handed to call()", ok && passes,
 				pickS(ok && passes, "for each options[i]: options[i](&config); call(config)", "CallWithOptions does not apply every given option to the config it passes on"), calls[0])
